@@ -738,6 +738,14 @@ func (c *cutter) doHuffman(isFirstBlock bool, lLengths []uint32, dLengths []uint
 
 		} else {
 			// It's the end-of-block.
+			//
+			// The budget check below runs only after a literal or a copy. If
+			// the end-of-block code is the block's first symbol (an empty
+			// block), nothing has yet checked that this code itself fits in
+			// maxEncodedLen.
+			if (8*uint64(c.bits.index) - uint64(c.bits.nBits)) > (8 * uint64(c.maxEncodedLen)) {
+				return errInternalNoProgress
+			}
 			return nil
 		}
 
